@@ -66,9 +66,10 @@ def expect_out(rep: Report, rule: str, fi: FuncInfo, what: str, v: Optional[SV],
         rep.violation(rule, fi, construct, f"total noise variance is {v.var.show()} but the configured law is {var.show()} (ratio {ratio.show()})", node=node)
 
 
-def run_fn(repo, fi, env, atoms, attr_values=None, models=None, allow_floor=False):
+def run_fn(repo, fi, env, atoms, attr_values=None, models=None, allow_floor=False, complex_input=False):
     it = Scaling(fi, repo, config=cfg(atoms), attr_values=attr_values or {}, method_models=models or {})
     it.allow_floor = allow_floor
+    it.complex_input = complex_input or any(k.startswith("torch.is_complex(") and v is True for k, v in atoms.items())
     full = {p: NONE_V for p in fi.params if p != "self"}
     full.update(env)
     it.run(full)
@@ -177,6 +178,39 @@ def rule_laplacian(repo: Repo, rep: Report) -> int:
     return n
 
 
+def rule_axis_truthiness(repo: Repo, rep: Report) -> int:
+    """An optional integer parameter (a reduction axis `dim`, a seed, an index) for which 0 is a legitimate value may not be
+    tested by truthiness: `if dim` / `x if dim else y` treats axis 0 like "not given", so the per-slice SNR along the first
+    axis silently becomes a global one.  `is None` / `is not None` are the accepted tests."""
+    n = 0
+    for file in (SNRU, SNRM, AN):
+        mi = repo.module(file)
+        for fi in list(mi.functions.values()) + [m for ci_ in mi.classes.values() for m in ci_.methods.values()]:
+            a = fi.node.args
+            params = a.args + a.kwonlyargs
+            defaults = [None] * (len(a.args) - len(a.defaults)) + list(a.defaults) + list(a.kw_defaults)
+            cands = set()
+            for p_, d in zip(params, defaults):
+                ann = unparse(p_.annotation) if p_.annotation is not None else ""
+                if isinstance(d, ast.Constant) and d.value is None and "int" in ann and p_.arg in ("dim", "axis", "dims", "axes", "index", "idx"):
+                    cands.add(p_.arg)
+            if not cands:
+                continue
+            for x in ast.walk(fi.node):
+                tests = []
+                if isinstance(x, (ast.If, ast.IfExp, ast.While)):
+                    tests.append(x.test)
+                elif isinstance(x, ast.BoolOp):
+                    tests += list(x.values[:-1]) if isinstance(x.op, ast.Or) else list(x.values)
+                for t in tests:
+                    core = t.operand if isinstance(t, ast.UnaryOp) and isinstance(t.op, ast.Not) else t
+                    if isinstance(core, ast.Name) and core.id in cands:
+                        n += 1
+                        rep.violation("PARAM", fi, f"{fi.name}: `{unparse(t)}` tests the optional axis `{core.id}` by truthiness", f"`{core.id}=0` (the first axis) is falsy and is handled like `{core.id}=None`: the statistic is taken over the whole tensor instead of per slice along axis 0, so the configured SNR is not delivered per slice (use `is not None`)", node=t)
+    rep.ok("PARAM", f"{SNRU}::functions", "optional axis parameters are tested with `is None`", f"{n} truthiness test(s) found", nontrivial=False)
+    return n + 1
+
+
 def rule_override_verbatim(repo: Repo, rep: Report) -> int:
     """A caller-supplied noise tensor is added as given.  The scaling-law engine treats casts as identities, so this rule
     looks at every re-binding of a `noise` parameter: a device move is accepted; a cast to the signal's dtype (or any
@@ -280,9 +314,11 @@ def rule_utils(repo: Repo, rep: Report) -> int:
         expect_out(rep, "SNR-LAW", fi, f"add_noise_for_snr ({'complex' if cplx else 'real'})", first, ONE, E() / N / L("snr_db"), it, fi.node)
         n += 1
 
-    def judge(rule, fi, what, v, want_kind, want_m):
+    def judge(rule, fi, what, v, want_kind, want_m, it=None):
         construct = f"{what}: {v.show() if isinstance(v, SV) else v}"
-        if not isinstance(v, SV) or v.kind == "unk":
+        if it is not None and it.definite:
+            rep.violation(rule, fi, construct, it.definite[0])
+        elif not isinstance(v, SV) or v.kind == "unk":
             rep.undecided(rule, fi, construct, f"not derived ({v.why if isinstance(v, SV) else ''})")
         elif v.kind == want_kind and v.m == want_m:
             rep.ok(rule, fi, construct, f"= {want_kind}[{want_m.show()}]")
@@ -303,8 +339,8 @@ def rule_utils(repo: Repo, rep: Report) -> int:
     judge("DB-KIND", fi, "noise_power_to_snr(S, Nn)", v, "db", Mono.sym("S") / Mono.sym("Nn"))
     fi = repo.func(SNRU, "calculate_snr")
     for cplx in (False, True):
-        v, _ = run_fn(repo, fi, {"original_signal": SV("sig", ONE, src="x"), "noisy_signal": SV("sig", ONE, src="y"), "dim": NONE_V, "keepdim": NONE_V}, {"torch.is_complex(original_signal)": cplx}, allow_floor=True)
-        judge("DB-KIND", fi, f"calculate_snr(x, y) ({'complex' if cplx else 'real'})", v, "db", E("x") / E("(y-x)"))
+        v, it_ = run_fn(repo, fi, {"original_signal": SV("sig", ONE, src="x"), "noisy_signal": SV("sig", ONE, src="y"), "dim": NONE_V, "keepdim": NONE_V}, {"torch.is_complex(original_signal)": cplx}, allow_floor=True, complex_input=cplx)
+        judge("DB-KIND", fi, f"calculate_snr(x, y) ({'complex' if cplx else 'real'})", v, "db", E("x") / E("(y-x)"), it_)
     n += 6
     fi = repo.func(SNRM, "SignalToNoiseRatio.forward")
     for cplx in (False, True):
@@ -337,6 +373,7 @@ def run(repo: Repo, rep: Report, tier: str) -> None:
     n = rule_apply_noise(repo, rep)
     n += rule_awgn(repo, rep)
     n += rule_override_verbatim(repo, rep)
+    n += rule_axis_truthiness(repo, rep)
     n += rule_laplacian(repo, rep)
     n += rule_nonlinear(repo, rep)
     n += rule_fading_noise(repo, rep)
